@@ -511,6 +511,9 @@ fn cli_faults_for(ev: &Event) -> Vec<Fault> {
             let mut v = vec![e(shim::C_READ, libc::EINTR), e(shim::C_READ, libc::EIO)];
             if ev.res > 1 {
                 v.push(Fault { cls: shim::C_READ, ord: ev.ord, kind: shim::F_SHORT, a: (ev.res as u64 / 2).max(1), b: 0 });
+                // the stored bytes changed underneath the program: at THIS read the file is empty
+                // (it was truncated or replaced after it had been listed, opened — or read before)
+                v.push(Fault { cls: shim::C_READ, ord: ev.ord, kind: shim::F_EOF, a: 0, b: 0 });
             }
             v
         }
@@ -558,9 +561,19 @@ impl Scenario for C20Cli {
         let mut cfg = GenCfg::default_cfg();
         cfg.modules = (1, 4);
         cfg.assigns = (1, 6);
+        // one run in eight: ORDER-SENSITIVE sources. Two modules define the same top-level name, of
+        // which the compiler keeps the one handed over last (known finding F1 of C10/C11/C12 —
+        // here it is merely a source whose bindings depend on the order of the `-m` arguments);
+        // all modules are given with -m, so the order is the one on the command line, and the tool
+        // must produce what the library produces for the sources in THAT order
+        let order_sensitive = w.chance(1, 8);
+        if order_sensitive {
+            cfg.xmod_same_name = true;
+            cfg.modules = (2, 4);
+        }
         let set = gen::generate(&mut w, &cfg);
         let n = set.modules.len();
-        let malformed = if w.chance(1, 6) { Some(w.below(n)) } else { None };
+        let malformed = if !order_sensitive && w.chance(1, 6) { Some(w.below(n)) } else { None };
         let dirs = ["", "sub/", "sub/deeper/", "other.d/", "a-b/", ".hidden/", "sub/.git-like/"];
         let mut tree = vec![];
         for i in 0..n {
@@ -582,7 +595,7 @@ impl Scenario for C20Cli {
         if w.chance(1, 5) {
             symlinks.push(("sub/loop".to_string(), "..".to_string())); // directory loop
         }
-        let use_dir = w.chance(2, 3);
+        let use_dir = !order_sensitive && w.chance(2, 3);
         let mut dash_m = vec![];
         if !use_dir || w.chance(1, 4) {
             for (ti, e) in tree.iter().enumerate() {
@@ -742,6 +755,13 @@ impl Scenario for C20Cli {
         }
         if run.signal.is_some() || run.stderr.contains("panicked at") || run.status == Some(101) {
             out.violate("O5-cli-no-crash", format!("the command line tool crashed; {ctx}"));
+            return out;
+        }
+        if p.faults.iter().any(|f| f.kind == shim::F_EOF) && fired.iter().any(|e| e.fault != "none" && e.call == "read") {
+            // a module file that turned out empty when it was read: what the compilation of the
+            // remaining text gives is not judged, only that the tool neither crashed nor hung
+            out.count("not_judged.source_content_changed_underneath", 1);
+            out.log_hash = fnv1a(format!("{:?}|{}", run.status, run.events.len()).as_bytes());
             return out;
         }
         let hard = |classes: &[&str]| {
